@@ -106,8 +106,9 @@ def rule_call_prior(ctx):
     i = lv('i', n)
     # F = 0
     compare(ctx, 'R05.1/multinomial', f, 'F=0,flat', modes[(True, True)][0].data[0], sub(perms, mul(n, log(U))), modes[(True, True)][1], "ln permutations - n log U")
-    prod = reduce_('Mult', C(1), None, idx(P('frequencies'), idx(g, i)))
-    compare(ctx, 'R05.1/multinomial', f, 'F=0,frequencies', modes[(True, False)][0].data[0], add(perms, log(prod)), modes[(True, False)][1], "ln permutations + log prod f")
+    # the log-frequencies are summed; log(prod f) underflows for many copies of a rare allele (defect X)
+    lsum = reduce_('Add', C(0.0), None, log(idx(P('frequencies'), idx(g, i))))
+    compare(ctx, 'R05.1/multinomial', f, 'F=0,frequencies', modes[(True, False)][0].data[0], add(perms, lsum), modes[(True, False)][1], "ln permutations + sum log f")
     # F > 0
     alphas = call('mchap.calling.prior.calculate_alphas', P('inbreeding'), P('frequencies'))
     aconst = call('mchap.calling.prior.calculate_alphas', P('inbreeding'), div(C(1), U))
@@ -150,7 +151,34 @@ def rule_permutations(ctx):
     compare(ctx, 'R05.4/permutations', f, 'ln multinomial coefficient', ret, want, okmsg="lgamma(sum d + 1) - sum lgamma(d_i + 1)")
 
 
+def rule_no_log_of_product(ctx):
+    """a prior is a product over the copies of a genotype: with the ploidy of a pooled sample (a hundred copies) and a rare allele the
+    product leaves the floating point range although its logarithm is an ordinary number, so the prior functions must add logarithms and
+    never take the logarithm of a product accumulated in a loop (defect X: log_genotype_prior without inbreeding returned -inf for 108
+    copies of an allele of frequency 0.001, and the posterior mode of a pool moved)"""
+    n = 0
+    for fq in ('mchap.calling.prior.log_genotype_prior', 'mchap.calling.prior.log_genotype_allele_prior', 'mchap.assemble.prior.log_genotype_prior',
+               'mchap.assemble.prior.log_dirichlet_multinomial_pmf', 'mchap.pedigree.prior.log_unknown_dosage_prior', 'mchap.pedigree.prior.log_unknown_const_prior'):
+        if fq not in ctx.prog.funcs:
+            continue
+        f = ctx.func(fq)
+        r = ctx.recon(fq)
+        bad = []
+        for ev in r.events:
+            if ev.kind != 'return':
+                continue
+            t = reductions(ev.data[0])
+            for x in walk(t):
+                if x[0] == 'call' and x[1] in ('numpy.log', 'math.log') and any(y[0] == 'reduce' and y[1] == 'Mult' for y in walk(x[2][0])):
+                    bad.append(x)
+        n += 1
+        ctx.check(not bad, 'R05.5/no-log-of-product', f.construct('log of a product'), "logarithms are added; no logarithm of a product accumulated over the copies",
+                  "the logarithm of a product accumulated in a loop is returned: the product underflows to 0 (log = -inf) for many copies of a rare allele", f.where())
+    ctx.minimum('R05.5', n, 3)
+
+
 def run(ctx):
+    rule_no_log_of_product(ctx)
     rule_dm_assemble(ctx)
     rule_call_prior(ctx)
     rule_conditional(ctx)
